@@ -220,18 +220,31 @@ Fixpoint chop {A} (n m : nat) (l : list A) : list (list A) * list A :=
   | S n' => let '(gs, rest) := chop n' m (skipn m l) in (firstn m l :: gs, rest)
   end.
 
-Definition entry_out (dd : bool) (answers : list (bool * list N)) : list N :=
-  let flat := concat (map snd answers) in if dd then dedupe flat else flat.
+Definition entry_out (dd : bool) (results : list (list N)) : list N :=
+  let flat := concat results in if dd then dedupe flat else flat.
 
-Fixpoint fit_outputs (dd : bool) (nsubs : nat) (calls : list (list rspec * bool)) (answers : list (bool * list N))
+Fixpoint fit_outputs (dd : bool) (nsubs : nat) (calls : list (list rspec * bool)) (results : list (list N))
   : list (list (list N)) :=
   match calls with
   | [] => []
-  | (rs, _) :: r => let '(gs, rest) := chop nsubs (length rs) answers in
+  | (rs, _) :: r => let '(gs, rest) := chop nsubs (length rs) results in
                     map (entry_out dd) gs :: fit_outputs dd nsubs r rest
   end.
 
+(** What every application must return, stated without heap, addresses or cache: [execute] on the
+    content given at allocation to the two objects ([cs] = contents allocated so far, by identity). *)
+Fixpoint spec {R} (execute : N -> N -> bool -> R) (cs : list N) (tr : list event) : list R :=
+  match tr with
+  | [] => []
+  | EAlloc _ c :: r => spec execute (cs ++ [c]) r
+  | EApply s o inv :: r => execute (nth (N.to_nat s) cs 0) (nth (N.to_nat o) cs 0) inv :: spec execute cs r
+  | _ :: r => spec execute cs r
+  end.
+
 (** applying the rules to one substrate alone *)
+Definition rule_content (pool : list N) (r : rspec) : N :=
+  match r with RStr c => c | RObj o => nth (N.to_nat o) pool 0 end.
+
 Definition single (execute : N -> N -> bool -> list N) (dd : bool) (rules : list N) (inv : bool) (c : N) : list N :=
   let flat := concat (map (fun rc => execute c rc inv) rules) in if dd then dedupe flat else flat.
 
@@ -257,7 +270,7 @@ Definition run_batch (c : cfg) (t : table) (pool subs : list N) (calls : list (l
   let '(ok, outs, fin) := run (list N) (tbl_exec t) CURRENT_PINNED (c_cache c) (c_max c) (init _) tr in
   L [tbool (cops_eqb (client_view tr) (batch_prog pool subs calls)); tbool ok; tok_answers outs;
      tok_keys (c_cache c) (cache fin);
-     tlist (tlist (tlist tN)) (fit_outputs (c_dedupe c) (length subs) calls outs)].
+     tlist (tlist (tlist tN)) (fit_outputs (c_dedupe c) (length subs) calls (map snd outs))].
 
 (* ------------------------------------------------------------------ clustering: one-shot vs batched *)
 
